@@ -20,7 +20,7 @@ BINARY = ["add", "subtract", "multiply", "maximum", "minimum", "equal", "less", 
 UNARY = ["negative", "absolute", "invert", "logical_not", "square", "sign"]
 VALS = {"bool": [False, True], "int8": [-3, 0, 100], "int64": [0, 1, -2], "uint8": [0, 200, 3], "float64": [0.5, -1.0, 2.0]}
 CLOSE = [1.0, 1.0000001, 1e-9]        # different but within np.isclose tolerance: results must only be joined on ==
-SCALARS = [["py", 2], ["py", 2.5], ["py", True], ["int8", 3], ["float32", 1.5]]
+SCALARS = [["py", 2], ["py", 2.5], ["py", True], ["int8", 3], ["float32", 1.5], ["float16", 1.5]]
 FLOAT_EXCLUDED = {"floor_divide"}
 
 
@@ -36,7 +36,9 @@ def shards(tier):
         out.append({"pair": ["bool", "bool"], "lmax": 5, "lmin": 5, "few": 1})
     for d1 in VALS:
         out.append({"single": d1, "lmax": 4 if tier == "quick" else 6})
-    out.append({"single": "f64zero", "lmax": 4, "unary_only": 1})      # +0.0 and -0.0 (equal under ==) with sign-sensitive unary ufuncs
+    out.append({"single": "f64zero", "lmax": 4, "unary_only": 1})
+    out.append({"pair": ["f16", "f16"], "lmax": 2, "ufs": ["add", "maximum", "less", "multiply"]})     # float16 operands and results
+    out.append({"pair": ["int8", "f16"], "lmax": 2, "ufs": ["add", "maximum", "less", "multiply"]})      # +0.0 and -0.0 (equal under ==) with sign-sensitive unary ufuncs
     out.append({"medium": 1})
     out.append({"seq": 1})
     out.append({"pair": ["f64close", "f64close"], "lmax": 3, "few": 1})
@@ -77,7 +79,7 @@ def cases(shard, tier):
     if "pair" in shard:
         d1, d2 = shard["pair"]
         ufs = shard.get("ufs") or (BINARY if not shard.get("few") else ["add", "maximum", "equal", "subtract", "logical_and"])
-        nv = lambda d: 3 if d in ("f64close", "i64big", "u64big", "f64nan") else len(VALS[d])
+        nv = lambda d: 3 if d in ("f64close", "i64big", "u64big", "f64nan", "f16") else len(VALS[d])
         for L in range(shard.get("lmin", 1), shard["lmax"] + 1):
             for t1 in itertools.product(range(nv(d1)), repeat=L):
                 for t2 in itertools.product(range(nv(d2)), repeat=L):
@@ -126,6 +128,8 @@ def cases(shard, tier):
 def _arr(dt, t):
     if dt == "f64close":
         return np.array([CLOSE[i % 3] for i in t], dtype=np.float64)
+    if dt == "f16":
+        return np.array([[0.5, -1.0, 2.0][i % 3] for i in t], dtype=np.float16)
     if dt == "f64zero":
         return np.array([[0.0, 1.5, -0.0][i % 3] for i in t], dtype=np.float64)
     if dt == "f64nan":
